@@ -177,7 +177,7 @@ def satisfiable(alts, cond, ax):
 
 class Lic:
     def __init__(self, ctx, fn, flow, member_U=None, gated=None, ax=None, entry_U=None,
-                 line_caps=None, init_mode=False, member_writes=None):
+                 line_caps=None, init_mode=False, member_writes=None, stale_zero=False):
         """member_U: 'this.m' -> DNF (object initialisation condition, in this-atoms)
         gated: usr -> (fn, cls, maskpos, {outpos: bit})   gated callees
         line_caps: varkey of a line object -> BV of its construction caps (M5)
@@ -198,8 +198,30 @@ class Lic:
         self.nreads = 0
         self.entry_U = dict(entry_U or {})
         self._pc_cache = {}
+        self.stale_zero = stale_zero
+        self.zero_then_assigned = self._zero_then_assigned() if stale_zero else set()
         if fn.cfg:
             self._solve()
+
+    def _zero_then_assigned(self):
+        """float locals declared '= 0' that are assigned again somewhere under an if."""
+        fn = self.fn
+        zero = {}
+        for i, n in fn.all_nodes():
+            if n['k'] == 'DeclStmt':
+                for d in n['decls']:
+                    if d.get('init', -1) >= 0 and d['t'].replace('const ', '') in ('double', 'float', 'long double'):
+                        init = fn.nodes[fn.strip_casts(d['init'])]
+                        if init['k'] in ('IntegerLiteral', 'FloatingLiteral') and float(init['v']) == 0:
+                            zero[d['d']] = i
+        out = set()
+        for i, n in fn.all_nodes():
+            if n['k'] in ('BinaryOperator',) and n.get('op') == '=':
+                ln = fn.nodes[fn.strip(n['ch'][0])]
+                if ln['k'] == 'DeclRefExpr' and ln.get('d') in zero:
+                    if any(fn.nodes[a]['k'] == 'IfStmt' for a in fn.ancestors(i)):
+                        out.add(ln['d'])
+        return out
 
     # ------------------------------------------------------------------ state helpers
     def U(self, st, key):
@@ -351,7 +373,12 @@ class Lic:
                     continue
                 key = 'v:' + d['d']
                 if d.get('init', -1) >= 0:
-                    st[key] = self.value_U(d['init'], st)
+                    if self.stale_zero and d['d'] in self.zero_then_assigned:
+                        # "= 0 to avoid a warning" is not a definition when the variable is also
+                        # assigned under a condition: the zero must never be consumed (rule L4)
+                        st[key] = DECL_TRUE
+                    else:
+                        st[key] = self.value_U(d['init'], st)
                 elif is_scalar_t(d['t']):
                     st[key] = DECL_TRUE
             return
@@ -362,6 +389,8 @@ class Lic:
                 vu = d_or(vu, self.value_U(n['ch'][0], st))
             if check:
                 self.sink_store(e, n['ch'][0], vu)
+                if not self.init_mode and key is not None and key.startswith('this.'):
+                    self.sink(e, vu, 'value stored into member %s' % key[5:])
                 # index expressions of the destination
                 self.sink_indices(e, n['ch'][0], st)
             if key is not None:
@@ -436,6 +465,27 @@ class Lic:
                                 if 0 <= jj < len(pk) and pk[jj] in ('v', 'cr', 'cp'):
                                     inputs_U = d_or(inputs_U, self.value_U(b, st))
                         st[key] = inputs_U
+        # a mutating call on an object: its by-value arguments flow into the object
+        objn = None
+        if n.get('ckind') == 'member' and 'obj' in n and not n.get('objthis') and not ce.get('mconst') and not ce.get('mstatic'):
+            objn = n['obj']
+            vargs = args
+        elif n.get('ckind') == 'operator' and ce.get('method') and not ce.get('mconst') and args:
+            objn = args[0]
+            vargs = args[1:]
+        if objn is not None:
+            au = FALSE
+            for ai, a in enumerate(vargs):
+                kind = pk[ai] if ai < len(pk) else 'v'
+                if kind in ('v', 'cr', 'cp', 'rr'):
+                    au = d_or(au, self.value_U(a, st))
+            if au != FALSE:
+                okey, _ = self.lvalue_key(objn)
+                if okey is not None and okey.startswith('this.') and not self.init_mode:
+                    if check:
+                        self.sink(e, au, 'value stored into member %s' % okey[5:])
+                elif okey is not None:
+                    st[okey] = d_or(self.U(st, okey), au)
         if check and n.get('ckind') == 'member' and 'obj' in n and not n.get('objthis'):
             on = fn.nodes[fn.strip(n['obj'])]
             if on['k'] == 'MemberExpr' and on.get('thisbase'):
